@@ -636,6 +636,9 @@ class World:
         P.noid = False
         for f in feats:
             P.stored[f] = [c[sel] for c in self.cands(S, f, must=False)]
+        if "contour" in feats and self.contour_recomputable(S):
+            P.contour_unmodelled = True
+            ctx.count("export_of_recomputed_contour")
         for B in S.basins:
             if B["internal"] is not None:
                 continue
@@ -1016,6 +1019,9 @@ class World:
     def contour_recomputable(self, F):
         """dclab computes 'contour' from 'mask' where no basin delivers it (here or inside a basin's target):
         such a contour is legitimate data that the model does not describe"""
+        if getattr(F, "contour_unmodelled", False):
+            # exported from a source whose contour dclab computed from a mask: stored, legitimate, not described by the model
+            return True
         if not F.exists or "contour" in F.stored:
             return False
         for B in F.basins:
